@@ -293,6 +293,33 @@ def Store.gc (k : Kind) (now : Int) (st : Store) : Store :=
   | .memory => st
   | .files => { st with recs := st.recs.filter (fun r => !Gen.fileGcExpired r.timeout now) }
 
+/-! ### the client side of the network storage: `messenger::transmit`
+
+One exchange = write the operation, read the answer.  `attempt i` is what the `i`-th exchange over the socket yields
+(`none`: a `system_error`, e.g. the connection was dropped); `reconnectOk`: whether re-opening the socket succeeds.
+The loop: try an exchange; on the first failure reconnect, count, and go round again — which **re-sends** the
+operation; a second failure (or a failed reconnect) throws.  Where `done=true` sits is regenerated
+(`Gen.txDoneInTry`, `Gen.txDoneAfterCatch`). -/
+
+inductive TxResult (R : Type) where
+  | answered (r : R)         -- the caller sees the server's answer
+  | noAnswer                 -- returns normally with the request header untouched: "no such session" for a load, a lost save / remove
+  | thrown                   -- cppcms_error
+deriving DecidableEq, Repr
+
+def transmitLoop {R : Type} (attempt : Nat → Option R) (reconnectOk : Bool) : Nat → Nat → TxResult R
+  | 0, _ => .thrown        -- unreachable: at most two iterations
+  | fuel + 1, times =>
+    match attempt times with
+    | some r => if Gen.txDoneInTry || Gen.txDoneAfterCatch then .answered r else transmitLoop attempt reconnectOk fuel times
+    | none =>
+      if times != 0 then .thrown
+      else if !reconnectOk then .thrown
+      else if Gen.txDoneAfterCatch then .noAnswer
+      else transmitLoop attempt reconnectOk fuel (times + 1)
+
+def transmit {R : Type} (attempt : Nat → Option R) (reconnectOk : Bool) : TxResult R := transmitLoop attempt reconnectOk 3 0
+
 /-! ## configuration, environment (externals), cookies -/
 
 inductive Loc where
